@@ -187,7 +187,7 @@ def gen_names(chk, facts):
             names.append((True, n, 'special'))
     rng = chk.rng
     alphabet = u'ab_.supervisor.getState.__class__\u00e9\u4e2d\U0001F600 \t.:*'
-    for _ in range(400 if chk.tier == 'quick' else 5000):
+    for _ in range(400 if chk.tier == 'quick' else 20000):
         n = ''.join(rng.choice(alphabet) for _ in range(rng.randrange(0, 14)))
         names.append((rng.random() < 0.5, n, 'random'))
     # de-duplicate, keeping order
@@ -276,6 +276,38 @@ VALID_NAMES = ['g1:p1', 'g1:p2', 'g2:q1', 'solo', 'solo:solo', 'g1:*', 'g2:*', '
 VALID_SIGNALS = ['HUP', 'TERM', 'USR1', '1', '15', 'SIGKILL']
 
 
+# targeted calls tried for every mood and process-state layout before the random tuples
+CORPUS = [
+    ('supervisor.startProcess', ('g1:p2',)), ('supervisor.startProcess', ('g1:p2', True)),
+    ('supervisor.startProcess', ('g1:p2', False)), ('supervisor.startProcess', ('solo',)),
+    ('supervisor.startProcess', ('g1:p1',)), ('supervisor.startProcess', ('g1:*',)),
+    ('supervisor.stopProcess', ('g1:p1',)), ('supervisor.stopProcess', ('solo',)), ('supervisor.stopProcess', ('g2:q1', False)),
+    ('supervisor.stopProcess', ('g1:*',)),
+    ('supervisor.startProcessGroup', ('g1',)), ('supervisor.stopProcessGroup', ('g1',)), ('supervisor.startProcessGroup', ('g1', False)),
+    ('supervisor.startAllProcesses', ()), ('supervisor.stopAllProcesses', ()), ('supervisor.stopAllProcesses', (False,)),
+    ('supervisor.signalProcess', ('g2:q1', 'HUP')), ('supervisor.signalProcess', ('g1:*', 'USR1')),
+    ('supervisor.signalProcessGroup', ('g1', 'TERM')), ('supervisor.signalAllProcesses', ('15',)),
+    ('supervisor.sendProcessStdin', ('g2:q1', 'x')), ('supervisor.sendProcessStdin', ('g1:p1', u'h\u00e9llo')),
+    ('supervisor.sendRemoteCommEvent', ('type', u'd\u00e4ta')),
+    ('supervisor.clearProcessLogs', ('g2:q1',)), ('supervisor.clearProcessLog', ('g1:p1',)), ('supervisor.clearAllProcessLogs', ()),
+    ('supervisor.readProcessStdoutLog', ('g1:p1', 0, 14)), ('supervisor.readProcessStdoutLog', ('g1:p1', 0, 15)),
+    ('supervisor.readProcessStdoutLog', ('g1:p2', 0, 0)), ('supervisor.readProcessLog', ('g1:p2', 2, 2)),
+    ('supervisor.tailProcessStdoutLog', ('g1:p2', 0, 100)), ('supervisor.tailProcessLog', ('g1:p1', 0, 16)),
+    ('supervisor.tailProcessStderrLog', ('g1:p1', 0, 100)), ('supervisor.readProcessStderrLog', ('g2:q1', 0, 0)),
+    ('supervisor.readProcessStderrLog', ('g1:p1', -4, 0)), ('supervisor.readLog', (0, 0)), ('supervisor.readMainLog', (-10, 0)),
+    ('supervisor.readLog', (5, -1)), ('supervisor.clearLog', ()), ('supervisor.reloadConfig', ()),
+    ('supervisor.addProcessGroup', ('newgrp',)), ('supervisor.addProcessGroup', ('g1',)),
+    ('supervisor.removeProcessGroup', ('g2',)), ('supervisor.removeProcessGroup', ('g1',)), ('supervisor.removeProcessGroup', ('solo',)),
+    ('supervisor.getProcessInfo', ('g1:p1',)), ('supervisor.getProcessInfo', ('solo',)), ('supervisor.getAllProcessInfo', ()),
+    ('supervisor.getAllConfigInfo', ()), ('supervisor.shutdown', ()), ('supervisor.restart', ()),
+    ('system.methodHelp', ('supervisor.startProcess',)), ('system.methodSignature', ('supervisor.startProcess',)),
+    ('system.methodSignature', ('supervisor.readMainLog',)),
+    ('system.multicall', ([{'methodName': 'supervisor.getState', 'params': []},
+                           {'methodName': 'supervisor.startProcess', 'params': ['g1:p2']},
+                           {'methodName': 'nope', 'params': []}],)),
+]
+
+
 def rand_text(rng, safe=True):
     alphabet = u'abcXYZ019 _-:*.<>&"\'%\\/\n\t\u00e9\u00df\u4e2d\u6587\U0001F600\u202e'
     if not safe:
@@ -355,7 +387,7 @@ def explore_args(chk, pool, facts, cases, meta, counters):
     guard = dict(('%s.%s' % (ns, n), g[0]) for ns, n, _t, _a, _b, g in facts['infos'])
     arity = dict(('%s.%s' % (ns, n), (a, b)) for ns, n, _t, a, b, _g in facts['infos'])
     rng = chk.rng
-    per = 5 if chk.tier == 'quick' else 24
+    per = 5 if chk.tier == 'quick' else 60
     n_eval = 0
     for method in facts['listed']:
         sig = facts['signatures'][method]
@@ -367,7 +399,7 @@ def explore_args(chk, pool, facts, cases, meta, counters):
         amin, amax = arity[method]
         for moodname, mood in MOODS:
             for variant in range(len(VARIANTS)):
-                tuples = []
+                tuples = [p for m, p in CORPUS if m == method]
                 for _ in range(per):
                     n = rng.randrange(amin, (amax if amax is not None else amin + 2) + 1)
                     tuples.append(tuple(gen_value(rng, names[i], ptypes[i], method) for i in range(n)))
@@ -391,6 +423,10 @@ def explore_args(chk, pool, facts, cases, meta, counters):
                     # known finding: undecodable log window
                     if known_utf8(method, res, res2):
                         counters['utf8'] = counters.get('utf8', 0) + 1
+                        continue
+                    if res2 is not None and res2[0] not in ('value', 'fault'):
+                        chk.violation(dict(rec, kind='call with arguments of the documented types did not produce a value or a fault '
+                                                     '(HTTP 500 / exception / response that never completes)'))
                         continue
                     if res2 is not None:
                         r1 = ('http', 500) if res[0] == 'exception' else (res[0], norm(res[1]))
@@ -458,7 +494,7 @@ def explore_multicall(chk, logdir, ref, cases, meta, counters):
     from c12_world import World, MOODS, VARIANTS
     from supervisor.xmlrpc import Faults
     rng = chk.rng
-    runs = 400 if chk.tier == 'quick' else 5000
+    runs = 400 if chk.tier == 'quick' else 20000
     n_eval = 0
     for k in range(runs):
         variant = rng.randrange(len(VARIANTS))
@@ -489,8 +525,12 @@ def explore_multicall(chk, logdir, ref, cases, meta, counters):
                 pk = 0
             else:
                 exp, pk = w1.call_xml(name, params)
-                if exp == ('http', 500):
-                    exp = ('fault', Faults.FAILED)
+                if exp[0] not in ('value', 'fault'):
+                    chk.violation({'kind': 'call with arguments of the documented types did not produce a value or a fault '
+                                           '(HTTP 500 / exception / response that never completes)',
+                                   'method_name': name, 'params': repr(params), 'mood': mood, 'variant': variant,
+                                   'answer': repr(exp), 'earlier_calls_in_this_world': [[n, p] for n, p in calls[:len(seq)]]})
+                    exp = ('fault', Faults.FAILED)      # what a multicall element makes of a crash
                     counters['mc_crash'] = counters.get('mc_crash', 0) + 1
             seq.append(exp)
             script.append((pk, exp))
@@ -541,13 +581,24 @@ def explore_multicall(chk, logdir, ref, cases, meta, counters):
 def _run(chk, wd, proved):
     import c12_rpc
     from c12_world import subscribe_events, write_logs
+    rejected = None
     try:
         facts = c12_rpc.facts()
     except Exception as e:
-        chk.violation({'kind': 'translator rejected the current source', 'detail': repr(e),
+        rejected = repr(e)
+        facts = None
+    if rejected is not None:
+        # The model no longer describes the code.  Still look for a concrete
+        # failing input with the model-independent assertions.
+        n_before = len(chk.violations)
+        try:
+            _explore_without_model(chk, wd)
+        except Exception as e2:
+            chk.note('model-free exploration failed: %r' % (e2,))
+        chk.violation({'kind': 'translator rejected the current source', 'detail': rejected,
                        'explanation': 'gen/c12_rpc.py reads traverse(), _update(), multicall(), the Faults table, the '
                                       'namespace classes and docs/api.rst; a shape it does not recognise means the model '
-                                      'may no longer describe the code'}, nofail=True)
+                                      'may no longer describe the code'}, nofail=(len(chk.violations) == n_before))
         return
     logdir = os.path.join(wd, 'logs')
     os.makedirs(logdir)
@@ -616,6 +667,45 @@ def _run(chk, wd, proved):
     for k, v in sorted(counters.items()):
         chk.dist('outcome:' + k, v)
     chk.note('worlds built: %d' % pool.built)
+
+
+def lite_facts():
+    """What the exploration needs, from the live objects only (no AST)."""
+    import inspect
+    import c12_rpc
+    root, mroot, namespaces, system = c12_rpc.build_live()
+    t_root, t_mroot, universe = c12_rpc.attribute_tables(root, mroot)
+    listed = system.listMethods()
+    infos, sigs = [], {}
+    for n in listed:
+        ns, m = n.split('.')
+        f = getattr(namespaces[ns], m)
+        ps = list(inspect.signature(f).parameters.values())
+        amin = len([p for p in ps if p.default is p.empty])
+        infos.append((ns, m, '', amin, len(ps), ('GNone' if ns == 'system' or m == 'sendRemoteCommEvent' else 'GFirst', [], '')))
+        try:
+            sigs[n] = system.methodSignature(n)
+        except Exception:
+            sigs[n] = None
+    return dict(t_root=t_root, t_mroot=t_mroot, universe=sorted(universe), listed=listed, infos=infos, signatures=sigs)
+
+
+def _explore_without_model(chk, wd):
+    from c12_world import subscribe_events, write_logs
+    facts = lite_facts()
+    logdir = os.path.join(wd, 'logs')
+    os.makedirs(logdir)
+    write_logs(logdir)
+    ref = [None]
+    subscribe_events(ref)
+    pool = Pool(logdir, ref)
+    counters = {}
+    c, m = [], []
+    explore_names(chk, pool, facts, c, m)
+    explore_args(chk, pool, facts, c, m, counters)
+    explore_multicall(chk, logdir, ref, [], [], counters)
+    chk.coverage['evaluations'] = len(c)
+    chk.coverage['rule'] = 'translator rejected the source: model-independent assertions only'
 
 
 def _model_only(m):
